@@ -1,4 +1,5 @@
 import Blue.Driver.Util
+import Blue.Driver.C06
 import Blue.Driver.C09
 import Blue.Driver.C17
 import Blue.Driver.C18
@@ -39,6 +40,7 @@ def dispatch (toks : List String) : String :=
   | "log" :: rest => Blue.Driver.C12.handle rest
   | "lru" :: _ | "wl" :: _ | "wcq" :: _ | "wake" :: _ => Blue.Driver.C18.handle toks
   | "skip" :: _ | "list" :: _ => Blue.Driver.C17.handle toks
+  | "kvsw" :: rest => Blue.Driver.C06.handle rest
   | _ => "bad-op"
 
 partial def loop (h : IO.FS.Stream) (out : IO.FS.Stream) (grp : Option Blue.Driver.C09.Ctx) : IO Unit := do
